@@ -4,6 +4,11 @@ import json, os, subprocess
 HERE = os.path.dirname(os.path.dirname(os.path.abspath(__file__)))
 
 CLAIMED = {
+ "C02": dict(
+   technique="exhaustive enumeration of small expression trees + random trees (proptest) vs an independent fold; metamorphic re-rendering with redundant parentheses",
+   text="All expression trees with one and two binary operators (every operator pair, both shapes), every unary/ABS/INT placement on them, and all 13^3 operator triples in all five shapes are enumerated over a leaf set of literals and assigned/unassigned variables, plus random trees up to 40 nodes; each is rendered four ways from the property's own precedence table and PRINTed by the real interpreter, and must equal an independent recursive fold (value text or error kind). Complete inside the enumerated bounds, sampled beyond.",
+   note="Trusts the ~60-line fold in model.rs (apply_bin / eval) and the renderer's parenthesisation, both written from the property statement; powf and f64 Display are shared with the implementation by design.",
+   design="4/C02"),
  "C18": dict(
    technique="exhaustive enumeration of generator states + property-based scripts vs independent u128 model (proptest), differential across two interpreters and the Web adapter",
    text="Every one of the 2^33 generator states is stepped through the real Rng (hook rng_step) and compared bit-for-bit with an independent u128 model in the thorough tier (every 128th state plus all power-of-two neighbours in the quick tier); seeds beyond 2^33 and RND call scripts (positive / zero / negative arguments, inside expressions, programs and FOR loops) are generated and compared with the model on two core interpreters and the Web adapter. The state space part is complete; seeds >= 2^33 and call interleavings are sampled.",
